@@ -33,6 +33,8 @@ def main(argv=None) -> int:
             setorder.install(pre["prefixes"], pre.get("own_ids", False))
         mod = importlib.import_module(f"vmc.props.{prop.lower()}")
         if a.replay:
+            if hasattr(mod, "replay"):
+                return mod.replay(a.replay)
             return engine.replay_file(a.replay)
         return mod.run(a.tier, seed)
     except engine.HarnessError as e:
